@@ -337,7 +337,8 @@ func account(c *mon.Case, cl call, res numcall.Result, viaSource bool) {
 
 func Spec() *mon.Spec {
 	return &mon.Spec{
-		ID: "C12", Level: "exploration",
+		ID:            "C12",
+		SpinViolation: true, Level: "exploration",
 		Rule: "case = 40 calls; command family fixed by the case index (+ - * / 1/2, math:abs/ceil/floor/round/round-to-even/trunc 1/4, inexact-num / exact-num 1/4). " +
 			"Doubles are drawn from bit patterns: ±0, ±Inf, NaNs with random payloads, subnormals, the limits of the range, powers of two, neighbours of 2^31/2^32/2^52/2^53/2^62/2^63/2^64, k+0.5 and its two neighbours (0.49999999999999994 …), small integers, decimal classics, random mantissas with moderate exponents, few-bit mantissas, fully random bits; pairs of related doubles (x,x), (x,-x), (x, neighbour of x), (x, the exact value of x as an exact argument). " +
 			"Exact arguments come from all three representations incl. integers in (2^63,2^70), rationals whose numerator and denominator need 54..63 bits, rationals around the overflow threshold 2^1024-2^970, around half the smallest subnormal, and exact midpoints between adjacent doubles ± 2^-1200; arguments are passed typed or as documented strings. + - * / get 1..6 arguments with at least one double (6 % only signed zeros, 6 % only special values). " +
